@@ -197,9 +197,10 @@ pub fn check_data(
         header
     );
     // decode back, also with trailing bytes present
-    for extra in [0usize, 1, 7] {
+    let followers: [&[u8]; 5] = [&[], &[0x16], &[0x16; 7], &[0xDC, 0x02, 0x01], &[0x68, 0x05, 0x05]];
+    for follower in followers {
         let mut input = expect.clone();
-        input.extend(std::iter::repeat(0x16).take(extra));
+        input.extend_from_slice(follower);
         match Telegram::deserialize(&input) {
             Some(Ok((Telegram::Data(t), used))) => {
                 ensure!(
